@@ -525,6 +525,11 @@ func shouldUseDigitPrefilter(re *syntax.Regexp, nfaSize int, config Config) bool
 	if nfaSize > digitPrefilterMaxNFAStates {
 		return false
 	}
+	// The candidates are verified with the lazy DFA, which the other strategies
+	// avoid for word boundaries (`[0-9]+\b\.[0-9]+` on "/00.049" ended at 5, not 7).
+	if hasWordBoundary(re) {
+		return false
+	}
 	return isDigitLeadPattern(re)
 }
 
